@@ -51,8 +51,31 @@ Definition judge_decl (c : str * ivars) : nat :=
 (* ---- an abstract declaration in a chosen spelling *)
 Record scase := mksc { sc_decl : adecl; sc_sp : dspell; sc_text : str; sc_out : ivars }.
 
+(* an array spec written on the entity: "(" ... ")" closed by its last character, parentheses and
+   brackets nested properly inside, no white space, no quote; an "=" may stand inside (keyword
+   arguments `size(a,dim=1)`, relational operators `n<=4`): it is never at depth 0 *)
+Fixpoint inside_parens (l b : nat) (x : str) : bool :=
+  match x with
+  | [] => false
+  | c :: r =>
+    if Ascii.eqb c c_lpar then inside_parens (S l) b r
+    else if Ascii.eqb c c_rpar then
+      match l, r with
+      | 0, [] => b =? 0
+      | S l', _ :: _ => inside_parens l' b r
+      | _, _ => false
+      end
+    else if Ascii.eqb c c_lbr then inside_parens l (S b) r
+    else if Ascii.eqb c c_rbr then match b with S b' => inside_parens l b' r | O => false end
+    else inside_parens l b r
+  end.
+Definition dim_ok (d : str) : bool :=
+  match d with
+  | c :: r => Ascii.eqb c c_lpar && inside_parens 0 0 r && negb (existsb is_space d) && negb (existsb is_quote d)
+  | [] => false
+  end.
 Definition entity_ok (e : aentity) : bool :=
-  ident_ok (e_name e) && match e_dim e with Some d => expr_ok d | None => true end.
+  ident_ok (e_name e) && match e_dim e with Some d => dim_ok d | None => true end.
 Definition decl_ok (sp : dspell) (d : adecl) : bool :=
   type_ok (ds_type sp) (d_type d) && forallb entity_ok (d_entities d)
   && match d_entities d with [] => false | _ => true end.
